@@ -491,9 +491,45 @@ def chain_elements(nodes, i):
     return out
 
 
+def valueless(nodes, i):
+    """the inline code of the subtree pushes no operand (port of Proofs/C06/Known.v)"""
+    if i is None or i >= len(nodes):
+        return False
+    n = nodes[i]
+    d = n["def"]
+    if d == "Group":
+        return True if n["right"] is None else valueless(nodes, n["right"])
+    if d == "SideEffect":
+        return True if n["left"] is None else valueless(nodes, n["left"])
+    if d == "ElseJump":
+        return n["left"] is not None and n["right"] is not None and valueless(nodes, n["left"]) and valueless(nodes, n["right"])
+    return False
+
+
+VALUE_KINDS = {"Unit", "False", "True", "Number", "CharList", "ByteList", "Symbol", "Property", "Value", "Identifier", "ExpressionTerminator"}
+PREFIX_UNARY = {"AbsoluteValue", "Opposite", "BitwiseNot", "Not", "Tis", "TypeOf", "AccessLeftInternal", "PrefixApply", "Reapply"}
+SUFFIX_UNARY = {"EmptyApply", "AccessRightInternal", "AccessLengthInternal", "SuffixApply"}
+
+
+def value_children(nodes, i):
+    """children of node i that must each leave exactly one operand"""
+    n = nodes[i]
+    d = n["def"]
+    if d in VALUE_KINDS or d in ("Group", "Drop"):
+        return []
+    if d in PREFIX_UNARY or d in ("SideEffect", "NestedExpression"):
+        return [n["right"]]
+    if d in SUFFIX_UNARY:
+        return [n["left"]]
+    if d == "ElseJump":
+        return [c for c in (n["left"], n["right"]) if c is not None and c < len(nodes) and nodes[c]["def"] not in COND + ("ElseJump",)]
+    return [n["left"], n["right"]]
+
+
 def tree_classes(nodes, root):
-    """The shapes that are listed findings, as a set of tags:
-       empty_group      a group `( )` with nothing inside (pushes no operand)
+    """The shapes that are listed findings, as a set of tags (port of Proofs/C06/Known.v):
+       empty_group      a construct that has to leave a value leaves none: an empty group `( )` or a
+                        free-standing side-effect block where one operand is required, or a block with an empty body
        chain_no_else    an else-chain whose last element is a conditional
        chain_early_else an else-chain with a non-conditional element before its end
        reapply_pending  `^~` somewhere other than the tail of its expression body
@@ -503,17 +539,18 @@ def tree_classes(nodes, root):
     if not nodes:
         return {"empty_program"}
     reach = reachable(nodes, root)
+    if valueless(nodes, root):
+        tags.add("empty_group")
     for i in reach:
         n = nodes[i]
         d = n["def"]
-        if d == "Group" and n["right"] is None:
+        if any(c is not None and valueless(nodes, c) for c in value_children(nodes, i)):
+            tags.add("empty_group")
+        if d == "SideEffect" and n["right"] is None:
             tags.add("empty_group")
         if d == "ExpressionTerminator":
             tags.add("terminator")
         if d == "ElseJump":
-            p = n["parent"]
-            if p is not None and p < len(nodes) and nodes[p]["def"] == "ElseJump":
-                continue   # not the head
             els = chain_elements(nodes, i)
             if els and nodes[els[-1]]["def"] in COND:
                 tags.add("chain_no_else")
@@ -572,3 +609,18 @@ def has_empty_body(nodes, root):
         if n["def"] == "NestedExpression" and n["right"] is not None and silent(nodes, n["right"]):
             return True
     return False
+
+
+# ------------------------------------------------------------------ harness binary
+def harness_exe(name):
+    """(ok, path-of-a-private-copy or None, message). Builds the binary from /repo's current tree.
+    VERIF_HARNESS_DIR (testing only): take <dir>/<name> as is - used to evaluate the check against a
+    privately mutated copy of /repo without touching the shared /repo."""
+    d = os.environ.get("VERIF_HARNESS_DIR")
+    if d:
+        path = os.path.join(d, name)
+        return os.path.exists(path), vplib.private_copy(path) if os.path.exists(path) else None, "VERIF_HARNESS_DIR=" + d
+    ok, out = vplib.cargo_build("debug", bins=[name])
+    if not ok:
+        return False, None, out[-400:]
+    return True, vplib.private_copy(vplib.harness_bin(name)), ""
